@@ -36,18 +36,12 @@ func (t *TaskExecutor[T]) ExecuteAt(identifier T, callback func(), executionTime
 	t.queuedElementsMutex.Lock()
 	defer t.queuedElementsMutex.Unlock()
 
-	// a TaskExecutor that was shut down rejects new tasks: the pending task of the identifier must then not be cancelled
-	// (it is still going to be executed, unless the shutdown dropped it)
-	if t.queue.IsShutdown() {
-		return nil
-	}
-
-	if queuedElement, queuedElementExists := t.queuedElements.Get(identifier); queuedElementExists {
-		queuedElement.Cancel()
-	}
+	// the pending task of the identifier is replaced by the new one, unless the new one is rejected (after a shutdown):
+	// the pending task is still going to be executed then (unless the shutdown dropped it)
+	replacedElement, _ := t.queuedElements.Get(identifier)
 
 	var scheduledTask *ScheduledTask
-	scheduledTask = t.Executor.ExecuteAt(func() {
+	scheduledTask = t.queue.add(func() {
 		callback()
 
 		t.queuedElementsMutex.Lock()
@@ -57,7 +51,7 @@ func (t *TaskExecutor[T]) ExecuteAt(identifier T, callback func(), executionTime
 		if queuedElement, queuedElementExists := t.queuedElements.Get(identifier); queuedElementExists && queuedElement == scheduledTask {
 			t.queuedElements.Delete(identifier)
 		}
-	}, executionTime)
+	}, executionTime, replacedElement)
 
 	if scheduledTask != nil {
 		t.queuedElements.Set(identifier, scheduledTask)
